@@ -4,10 +4,12 @@ import (
 	"bytes"
 	"context"
 	"encoding/base64"
+	"errors"
 	"fmt"
 	"io"
 	"net"
 	"net/http"
+	"net/url"
 	"strings"
 	"sync"
 
@@ -33,13 +35,15 @@ func init() {
 			return 60000
 		},
 		Run:      runC14,
-		Required: []string{"requests_parsed", "replies_accepted", "replies_refused", "refused_before_network", "keys_checked_distinct"},
+		Required: []string{"requests_parsed", "replies_accepted", "replies_refused", "refused_before_network", "keys_checked_distinct", "dialers_with_cookie_jar", "refusals_with_a_fault_inside_the_body"},
 		Assumptions: []string{
 			"caller header maps use canonical keys (the http.Header contract)",
 			"replies whose Upgrade/Connection lists contain the token only inside a malformed line, or with duplicate Accept lines, are UNSPECIFIED and only executed",
 		},
 	})
 }
+
+var errConnReset = errors.New("read tcp 192.0.2.1:80: connection reset by peer")
 
 var (
 	keysMu   sync.Mutex
@@ -56,6 +60,22 @@ type c14Case struct {
 	Forbidden string              `json:"forbidden_header,omitempty"`
 	BadURL    string              `json:"bad_url,omitempty"`
 	Reply     c14Reply            `json:"reply"`
+	Jar       bool                `json:"cookie_jar,omitempty"` // Dialer.Jar holds a cookie for the URL
+}
+
+// fixedJar is a cookie jar that always offers one cookie and records what it is given.
+type fixedJar struct {
+	mu  sync.Mutex
+	set int
+}
+
+func (j *fixedJar) SetCookies(u *url.URL, cookies []*http.Cookie) {
+	j.mu.Lock()
+	j.set += len(cookies)
+	j.mu.Unlock()
+}
+func (j *fixedJar) Cookies(u *url.URL) []*http.Cookie {
+	return []*http.Cookie{{Name: "session", Value: "jar"}}
 }
 
 type c14Reply struct {
@@ -67,7 +87,10 @@ type c14Reply struct {
 	BodyLen    int      `json:"body_len"`
 	Malformed  int      `json:"malformed,omitempty"`
 	Ext        int      `json:"extensions_header,omitempty"` // 1,2: permessage-deflate lacking no_context_takeover parameters; 3: another extension
-	Class      string   `json:"class"`
+	// BodyFault: the head arrives complete, the body is cut after BodyGot bytes by 1 a connection reset, 2 a timeout
+	BodyFault int    `json:"body_fault,omitempty"`
+	BodyGot   int    `json:"body_bytes_before_fault,omitempty"`
+	Class     string `json:"class"`
 }
 
 // c14Concurrent: Dialer methods are documented as safe for concurrent use. Several
@@ -166,7 +189,11 @@ func runC14(ctx *core.Ctx, out *core.Out) {
 	}
 	if r.Chance(1, 3) {
 		cs.Hdr["Cookie"] = []string{"a=b; c=d"}
+		if r.Bool() {
+			cs.Hdr["Cookie"] = []string{"a=b; c=d", "e=f"}
+		}
 	}
+	cs.Jar = r.Chance(1, 4)
 	if r.Chance(1, 3) {
 		cs.Hdr["X-Custom"] = []string{"v1", "v2"}
 	}
@@ -183,6 +210,10 @@ func runC14(ctx *core.Ctx, out *core.Out) {
 	dials := 0
 	var conns []*xport.Conn
 	d := &ws.Dialer{Subprotocols: cs.Subs, EnableCompression: cs.Comp, ReadBufferSize: []int{0, 1, 300, 4096}[r.Intn(4)], WriteBufferSize: []int{0, 1, 300}[r.Intn(3)]}
+	if cs.Jar {
+		d.Jar = &fixedJar{}
+		out.Count("dialers_with_cookie_jar", 1)
+	}
 	fail := func(sig, what string, extra map[string]interface{}) {
 		dd := map[string]interface{}{"case": cs}
 		for k, v := range extra {
@@ -399,6 +430,19 @@ func runC14(ctx *core.Ctx, out *core.Out) {
 			continue
 		}
 		got := h.Get(k)
+		if k == "Cookie" && cs.Jar {
+			// the jar's cookies are merged into the Cookie lines; every cookie the caller gave must still be there
+			all := "; " + strings.Join(got, "; ") + ";"
+			for _, v := range vs {
+				for _, pair := range strings.Split(v, "; ") {
+					if !strings.Contains(all, "; "+pair+";") {
+						fail("caller-header-lost", fmt.Sprintf("caller cookie %q is not in the request's Cookie lines %q (a cookie jar is configured)", pair, got), rq)
+						return
+					}
+				}
+			}
+			continue
+		}
 		if core.J(got) != core.J(vs) {
 			fail("caller-header-lost", fmt.Sprintf("caller header %s: %q on the wire, %q given", k, got, vs), rq)
 			return
@@ -444,6 +488,10 @@ func runC14(ctx *core.Ctx, out *core.Out) {
 	}
 	if r.Chance(1, 15) {
 		rp.Malformed = 1 + r.Intn(5)
+	}
+	if rp.Malformed == 0 && rp.BodyLen > 0 && rp.Status >= 200 && rp.Status != 101 && r.Chance(1, 3) {
+		rp.BodyFault = 1 + r.Intn(2)
+		rp.BodyGot = r.Intn(rp.BodyLen)
 	}
 	if r.Chance(1, 5) {
 		rp.Ext = 1 + r.Intn(3)
@@ -542,6 +590,14 @@ func runC14(ctx *core.Ctx, out *core.Out) {
 			fmt.Fprintf(&b, "Content-Length: %d\r\n", len(body))
 		}
 		b.WriteString("\r\n")
+		if rp.BodyFault != 0 {
+			b.Write(body[:rp.BodyGot])
+			ferr := error(errConnReset)
+			if rp.BodyFault == 2 {
+				ferr = xport.FaultTimeout.Err()
+			}
+			return []xport.Chunk{{Data: b.Bytes()}, {Err: ferr}}
+		}
 		b.Write(body)
 		return []xport.Chunk{{Data: b.Bytes()}}
 	})
@@ -618,7 +674,15 @@ func runC14(ctx *core.Ctx, out *core.Out) {
 		if len(want) > 1024 {
 			want = want[:1024]
 		}
-		if !bytes.Equal(got, want) {
+		if rp.BodyFault != 0 {
+			// the reply's status and headers arrived in full: it is still "any other reply";
+			// of the body only a prefix can be demanded
+			out.Count("refusals_with_a_fault_inside_the_body", 1)
+			if len(got) > len(want) || !bytes.HasPrefix(want, got) {
+				fail("bad-reply-body", fmt.Sprintf("response body has %d bytes which are not a prefix of the %d sent before the fault", len(got), rp.BodyGot), nil)
+				return
+			}
+		} else if !bytes.Equal(got, want) {
 			fail("bad-reply-body", fmt.Sprintf("response body has %d bytes, expected the first %d of %d", len(got), len(want), len(body)), nil)
 			return
 		}
